@@ -1,11 +1,14 @@
+mod c07;
 mod c12;
 mod core;
 mod logcap;
+mod sched;
 
 fn main() {
     logcap::install();
     let args = core::Args::parse();
     match args.prop.to_lowercase().as_str() {
+        "c07" => c07::run(&args),
         "c12" => c12::run(&args),
         other => {
             eprintln!("unknown property or tool: {}", other);
